@@ -304,6 +304,23 @@ def check_key(ctx, path, origin, tokens, signers=None, do_pub=True):
     return len(rep.prop_failures) - before
 
 
+def leading_zero_tokens(path, rng, tries):
+    """Tokens whose signature under this key starts with a 0x00 byte (1 in 256): fixed-length encoding of the signature matters."""
+    from cryptography.hazmat.primitives import hashes, serialization
+    from cryptography.hazmat.primitives.asymmetric import padding, utils
+    with open(path, "rb") as f:
+        key = serialization.load_pem_private_key(f.read(), password=None)
+    out = []
+    for _ in range(tries):
+        tok = bytes(rng.getrandbits(8) for _ in range(20))
+        sig = key.sign(tok, padding.PKCS1v15(), utils.Prehashed(hashes.SHA1()))
+        if sig[0] == 0:
+            out.append(("sig-leading-zero", tok))
+            if len(out) >= 2:
+                break
+    return out
+
+
 def make_tokens(rng):
     toks = [("random%d" % i, bytes(rng.getrandbits(8) for _ in range(20))) for i in range(3)]
     toks.append(("zero", b"\x00" * 20))
@@ -326,7 +343,9 @@ def check_user_info(ctx):
             ("login raises FileNotFoundError", raiser(FileNotFoundError(2, "No such file")), "h.example.org", b"", b"h.example.org"),
             ("empty login", lambda: "", "box", b"", b"box"),
             ("empty host", lambda: "bob", "", b"bob", b""),
-            ("both empty", lambda: "", "", b"", b"")]
+            ("both empty", lambda: "", "", b"", b""),
+            ("non-ASCII login", lambda: "jos\u00e9", "box", "jos\u00e9".encode("utf8"), b"box"),
+            ("non-ASCII host", lambda: "bob", "b\u00fcro-pc", b"bob", "b\u00fcro-pc".encode("utf8"))]
     # and the real environment, with the harness's own os.getlogin / gethostname
     try:
         real_user = os.getlogin()
@@ -337,6 +356,24 @@ def check_user_info(ctx):
     for label, login, host, mu, mh in envs:
         with mock.patch.object(keygen.os, "getlogin", login), mock.patch.object(keygen.socket, "gethostname", lambda host=host: host):
             rows.append((label, keygen.get_user_info().encode(), mu, mh))
+    # the comment must also make it into the .pub file for such names (keygen writes it with the default UTF-8 codec)
+    tmpd = tempfile.mkdtemp(prefix="c17u_")
+    try:
+        for label, login, host, mu, mh in envs[-2:]:
+            with mock.patch.object(keygen.os, "getlogin", login), mock.patch.object(keygen.socket, "gethostname", lambda host=host: host):
+                path = os.path.join(tmpd, "k_" + str(len(os.listdir(tmpd))))
+                try:
+                    keygen.keygen(path)
+                    with open(path + ".pub", "rb") as f:
+                        pub = f.read()
+                    tail = pub[700:]
+                    want = b" " + (mu or b"unknown") + b"@" + (mh or b"unknown")
+                    if tail != want:
+                        rep.prop_failures.append(dict(case=dict(pem=None, token=None, signer=None, env=label), why="public key file comment is %r, expected %r" % (tail, want), signature=dict(kind="user-info")))
+                except Exception as exc:  # noqa
+                    rep.prop_failures.append(dict(case=dict(pem=None, token=None, signer=None, env=label), why="keygen() with %s raised %s: %s" % (label, type(exc).__name__, exc), signature=dict(kind="user-info")))
+    finally:
+        shutil.rmtree(tmpd, ignore_errors=True)
     for label, got, mu, mh in rows:
         rep.evaluations += 1
         rep.traces_validated += 1
@@ -368,7 +405,10 @@ def run_keys(ctx, n_fresh, n_seeded, stop_on_failure=False):
                     f.write(seeded_key_pem(ctx.rng, kind))
                 keygen.write_public_keyfile(path, path + ".pub")
                 origin = "seeded/d mod " + kind
-            added = check_key(ctx, path, origin, make_tokens(ctx.rng))
+            toks = make_tokens(ctx.rng)
+            if i == 0:
+                toks += leading_zero_tokens(path, ctx.rng, 1500 if ctx.tier == "quick" else 6000)
+            added = check_key(ctx, path, origin, toks)
             if added and stop_on_failure:
                 break
             if len(rep.prop_failures) > 20:
